@@ -128,7 +128,8 @@ func rrCase[R any](t *rapid.T, withResult bool) {
 		ackErrs := rapid.Bool().Draw(t, "ackCommandErrors")
 		var timeout *time.Duration
 		if rapid.IntRange(0, 2).Draw(t, "listenTimeout") == 0 {
-			d := time.Duration(rapid.IntRange(20, 60).Draw(t, "timeoutMs")) * time.Millisecond
+			// incl. the boundary values: a zero or negative timeout has already passed
+			d := time.Duration(rapid.SampledFrom([]int{0, -1, 20, 35, 60}).Draw(t, "timeoutMs")) * time.Millisecond
 			timeout = &d
 		}
 		specs := make([]callerSpec, nCallers)
@@ -521,4 +522,169 @@ func rrCase[R any](t *rapid.T, withResult bool) {
 			lib.Sample(map[string]any{"test": "RequestReply", "callers": fmt.Sprintf("%+v", specs), "ack_command_errors": ackErrs, "timeout": timeout != nil})
 		}
 	}
+}
+
+// ---------- reply publish failures and ReplyPublishErrorHandler ----------
+
+type failingPub struct {
+	inner message.Publisher
+	mu    sync.Mutex
+	calls int
+	fail  map[int]bool
+	cur   func() *lib.Delivery
+	log   []string
+}
+
+func (p *failingPub) Publish(topic string, msgs ...*message.Message) error {
+	p.mu.Lock()
+	p.calls++
+	n := p.calls
+	st := ""
+	if d := p.cur(); d != nil {
+		a, nk := d.State()
+		st = fmt.Sprintf("acked=%v nacked=%v", a, nk)
+	}
+	p.log = append(p.log, st)
+	f := p.fail[n]
+	p.mu.Unlock()
+	if f {
+		return stderrors.New("reply transport down")
+	}
+	return p.inner.Publish(topic, msgs...)
+}
+func (p *failingPub) Close() error { return nil }
+
+func TestReplyPublishFailure(t *testing.T) {
+	rapid.Check(t, func(t *rapid.T) {
+		ackErrs := rapid.Bool().Draw(t, "ackCommandErrors")
+		mode := rapid.SampledFrom([]string{"none", "swallow", "pass"}).Draw(t, "replyPublishErrorHandler")
+		fails := rapid.IntRange(0, 2).Draw(t, "failingAttempts")
+		failOn := map[int]bool{}
+		for i := 1; i <= 4; i++ {
+			if rapid.IntRange(0, 2).Draw(t, "replyPublishFails") == 0 {
+				failOn[i] = true
+			}
+		}
+		gc := gochannel.NewGoChannel(gochannel.Config{}, watermill.NopLogger{})
+		defer gc.Close()
+		var dmu sync.Mutex
+		var deliveries []*lib.Delivery
+		fp := &failingPub{inner: gc, fail: failOn, cur: func() *lib.Delivery {
+			dmu.Lock()
+			defer dmu.Unlock()
+			if len(deliveries) == 0 {
+				return nil
+			}
+			return deliveries[len(deliveries)-1]
+		}}
+		cfg := requestreply.PubSubBackendConfig{
+			Publisher:              fp,
+			SubscriberConstructor:  func(requestreply.PubSubBackendSubscribeParams) (message.Subscriber, error) { return gc, nil },
+			GenerateSubscribeTopic: func(requestreply.PubSubBackendSubscribeParams) (string, error) { return "reply", nil },
+			GeneratePublishTopic:   func(requestreply.PubSubBackendPublishParams) (string, error) { return "reply", nil },
+			AckCommandErrors:       ackErrs,
+		}
+		switch mode {
+		case "swallow":
+			cfg.ReplyPublishErrorHandler = func(string, *message.Message, error) error { return nil }
+		case "pass":
+			cfg.ReplyPublishErrorHandler = func(_ string, _ *message.Message, err error) error { return err }
+		}
+		backend, err := requestreply.NewPubSubBackend[Res](cfg, requestreply.BackendPubsubJSONMarshaler[Res]{})
+		if err != nil {
+			t.Fatalf("NewPubSubBackend: %v", err)
+		}
+		cmdPub := lib.NewScriptPub("")
+		cmdSub := lib.NewScriptSub("")
+		router, _ := message.NewRouter(message.RouterConfig{CloseTimeout: 5 * time.Second}, watermill.NopLogger{})
+		bus, _ := cqrs.NewCommandBusWithConfig(cmdPub, cqrs.CommandBusConfig{
+			GeneratePublishTopic: func(cqrs.CommandBusGeneratePublishTopicParams) (string, error) { return "commands", nil }, Marshaler: cqrs.JSONMarshaler{}})
+		proc, _ := cqrs.NewCommandProcessorWithConfig(router, cqrs.CommandProcessorConfig{
+			GenerateSubscribeTopic: func(cqrs.CommandProcessorGenerateSubscribeTopicParams) (string, error) { return "commands", nil },
+			SubscriberConstructor:  func(cqrs.CommandProcessorSubscriberConstructorParams) (message.Subscriber, error) { return cmdSub, nil },
+			Marshaler:              cqrs.JSONMarshaler{}})
+		attempts := 0
+		proc.AddHandlers(requestreply.NewCommandHandlerWithResult[Cmd, Res]("handler", backend, func(ctx context.Context, c *Cmd) (Res, error) {
+			attempts++
+			if attempts <= fails {
+				return Res{CmdID: c.ID, Attempt: attempts}, stderrors.New("handler failed")
+			}
+			return Res{CmdID: c.ID, Attempt: attempts}, nil
+		}))
+		go router.Run(context.Background())
+		select {
+		case <-router.Running():
+		case <-time.After(lib.Live):
+			t.Fatalf("harness: router did not start")
+		}
+		defer func() {
+			done := make(chan struct{})
+			go func() { router.Close(); close(done) }()
+			select {
+			case <-done:
+			case <-time.After(lib.Live):
+			}
+		}()
+		ch, cancel, err := requestreply.SendWithReplies[Res](context.Background(), bus, backend, &Cmd{ID: "c"})
+		if err != nil {
+			t.Fatalf("SendWithReplies: %v", err)
+		}
+		defer cancel()
+		snap := cmdPub.Calls()[0].Snaps[0]
+		sub := cmdSub.Subs()[0]
+		var got []int
+		// deliver the command (fresh copy after every Nack) and check each settlement against the model
+		for a := 1; a <= 4; a++ {
+			m := snap.Msg()
+			d := &lib.Delivery{Msg: m}
+			dmu.Lock()
+			deliveries = append(deliveries, d)
+			dmu.Unlock()
+			if _, ok := sub.Emit(m, "c", a, lib.Live); !ok {
+				t.Fatalf("harness: command not taken")
+			}
+			acked, settled := d.Wait(2 * lib.Live)
+			if !settled {
+				t.Fatalf("violation: command delivery %d never settled", a)
+			}
+			handlerErr := a <= fails
+			pubFailed := failOn[a]
+			var wantAck bool
+			switch {
+			case pubFailed && mode != "swallow":
+				wantAck = false // the reply could not be published: the command must be redelivered
+			default:
+				wantAck = ackErrs || !handlerErr
+			}
+			if acked != wantAck {
+				t.Fatalf("violation: command delivery %d (handler error=%v, reply publish failed=%v, ReplyPublishErrorHandler=%s, AckCommandErrors=%v): acked=%v, expected %v",
+					a, handlerErr, pubFailed, mode, ackErrs, acked, wantAck)
+			}
+			fp.mu.Lock()
+			inside := fp.log[len(fp.log)-1]
+			fp.mu.Unlock()
+			if inside != "acked=false nacked=false" {
+				t.Fatalf("violation: command delivery %d already settled (%s) inside the reply Publish", a, inside)
+			}
+			if !pubFailed {
+				// the reply of this delivery reaches the caller
+				select {
+				case r := <-ch:
+					var te requestreply.ReplyTimeoutError
+					if stderrors.As(r.Error, &te) || r.HandlerResult.CmdID != "c" || r.HandlerResult.Attempt != a || (r.Error != nil) != handlerErr {
+						t.Fatalf("violation: reply of delivery %d: %+v error=%v, expected attempt %d with error=%v", a, r.HandlerResult, r.Error, a, handlerErr)
+					}
+					got = append(got, a)
+				case <-time.After(lib.Live):
+					t.Fatalf("violation: the reply of delivery %d was published but never reached the caller", a)
+				}
+			}
+			if acked {
+				break
+			}
+		}
+		cancel()
+		lib.Case(fmt.Sprintf("replyfail|%v|%s|%d|%v", ackErrs, mode, fails, failOn), len(failOn) > 0, "reply-publish-failure", "handler:"+mode)
+		lib.Sample(map[string]any{"test": "ReplyPublishFailure", "ack_command_errors": ackErrs, "error_handler": mode, "handler_fails": fails, "reply_publish_fails_on": fmt.Sprint(failOn), "replies": got})
+	})
 }
